@@ -202,3 +202,56 @@ def run(ctx):
             n5 += 1
             ctx.inst("R09.5", "pause-preserved:%s:%s" % (short_fn(st.fn), st.label), bad is None, st.fn.where(),
                      "%d State stores; %s" % (stores, bad or "each keeps the loaded pause flag"))
+
+
+    # ---------------------------------------------------------------- R09.6
+    # "opening/closing the vAMM only for its owner or its insurance fund": the fund - which is not the owner - must be
+    # able to do both (round-10 seed C09m let it close but never re-open).  Same rule as R14.6.
+    from .c14 import fund_alone_instance
+    ctx.rule("R09.6", "the vAMM's insurance fund alone may SetOpen, whatever value is requested", 1)
+    fund_alone_instance(ctx, "R09.6")
+
+    # ---------------------------------------------------------------- R09.7
+    # "after an ownership transfer the new holder has exactly these rights and the old one none": for the roles that live
+    # in a Config record, the arm that transfers them (a) can store a holder other than the loaded one and (b) never
+    # stores the Config again, later in the same call, with the loaded holder back in place (round-10 seed C09l: a
+    # second helper wrote back the copy of Config it had been handed before the first helper changed the owner)
+    ctx.rule("R09.7", "a role held in Config that the transferring arm has changed is not reverted by a later store of Config in the same call", 3)
+    from .. import arms as A
+    for contract, slots in sorted(SLOT_WRITERS.items()):
+        item = contract + ":config"
+        for variant in sorted(slots.get(item, ())):
+            fields = sorted({r[1] for v_, rs in ROLES[contract].items() if rs for r in rs if r[0] == "cfg"})
+            try:
+                a7 = A.Arm(ix, contract, variant)
+            except KeyError as e:
+                ctx.lost("R09.7", str(e))
+                continue
+            for f_ in fields:
+                changed_somewhere = False
+                bad = None
+                n_w = 0
+                for q in a7.ok_paths():
+                    seq = []   # (event, is the loaded holder?) per Config store on this path, in order
+                    for ei, ev_ in enumerate(q.events):
+                        if getattr(ev_, "opened", False) and ev_.target is not None:
+                            continue
+                        for wr in ix.writes_of_event(ev_, a7.m):
+                            if wr["item"] != item or wr["kind"] != "write" or wr["value"] is None:
+                                continue
+                            n_w += 1
+                            v = ix.inline(a7.c(sym.field(wr["value"], f_)))
+                            loaded = guards.is_field_of_item(ix, v, contract, item, f_)
+                            seq.append((ei, loaded, v))
+                    for i, (e1, l1, v1) in enumerate(seq):
+                        if l1:
+                            continue
+                        changed_somewhere = True
+                        for (e2, l2, v2) in seq[i + 1:]:
+                            if e2 != e1 and l2:
+                                bad = bad or "config.%s is set to %s and a later store of Config puts the loaded holder back" % (f_, sym.show(v1, 4))
+                has_field = any(f_ == x for x in [fl["name"] for v_ in (w.adts.get("margined_perp::%s::ExecuteMsg" % contract) or {"variants": []})["variants"] if v_["name"] == variant for fl in v_.get("fields", [])])
+                if not has_field and not changed_somewhere:
+                    continue   # this arm does not transfer that role
+                ctx.inst("R09.7", "transfer-sticks:%s::%s:config.%s" % (contract, variant, f_), bad is None and changed_somewhere and n_w > 0, a7.fn.where(),
+                         bad or ("%d Config stores; a changed holder is never reverted" % n_w if changed_somewhere else "no success path stores a holder other than the loaded one: the role cannot be transferred"))
